@@ -232,6 +232,8 @@ def fragment_records(header, frag, encoded=True, lib='LIB'):
             s.set_tag('bi', frag['cell'] + 1)
             if kind == 'chic':
                 s.set_tag('lh', 'TA')
+        if frag.get('foreign_rg'):      # read group assigned by the aligner / an earlier run with another read-group scheme
+            s.set_tag('RG', frag['foreign_rg'])
         if frag.get('dup'):     # stale state from "an earlier tool"
             s.set_tag('RC', frag['dup'].get('RC', 3))
             s.set_tag('af', 9)
